@@ -133,7 +133,7 @@ func VC04_History() {
 		if npfx == 2 && ndBool() {
 			pi = 1
 		}
-		op := vChoice(4)
+		op := vChoice(5)
 		if step == 1 { // entries are split by the second operation so that they run in parallel
 			if f := vParam("second"); f >= 0 {
 				vAssume(op == f)
@@ -153,6 +153,15 @@ func VC04_History() {
 				if j < n {
 					rib.RemovePath(pfxs[pi], stored[pi][j])
 					stored[pi] = append(stored[pi][:j:j], stored[pi][j+1:]...)
+				}
+			}
+		case 4: // a stored path is replaced by a re-evaluated version of itself (policy change): same peer, new attributes
+			if n := len(stored[pi]); n > 0 {
+				j := vChoice(3)
+				if j < n {
+					np := c04Path(c04ID(stored[pi][j]) - 0xc0000200)
+					rib.ReplacePath(pfxs[pi], stored[pi][j], np)
+					stored[pi][j] = np
 				}
 			}
 		case 2: // a client registers
